@@ -189,3 +189,63 @@ Example C04_total_example :
                   (mkmach (init_cfg HData None false) [] [] 0%N) []) = [SSuspend; SSuspend; SScript; SSuspend].
 Proof. exact np_ex. Qed.
 Print Assumptions C04_total_example.
+
+(* ------------------------------------------------------------------------------------------------------------
+   The XML tokenizer interpreter terminates with the same bound (TokIR/TermX.v: the argument of Termination.v with the
+   flavour-specific lemmas re-proved for xml5ever's discard_char through get_char, raw next() in eat(), its own
+   character-reference first state, tag-emitting EOF arms and an EOF loop that continues after a Script answer;
+   Inst/InstTermX.v on the regenerated xml table, where every state is clean: no temp_buf command, no peek). *)
+From HV Require Inst.InstTermX.
+
+Theorem C04_xml_tokenizer_run_terminates :
+  forall simd ent c1 sk at_eof fuel m,
+  InstTermX.XmlTI m -> (InstTermX.xml_fuel (InstTermX.xml_unread m) <= fuel)%nat ->
+  let r := run [] fq_next fq_peek (@app N) (fun q => q) fq_run1 xml_flavour true xml_table simd ent c1 sk at_eof fuel m in
+  InstTermX.XmlTI (fst r) /\ (InstTermX.xml_unread (fst r) <= InstTermX.xml_unread m)%nat /\
+  snd r <> SPanic 98 /\ snd r <> SPanic 97.
+Proof. exact InstTermX.xml_run_terminates. Qed.
+Print Assumptions C04_xml_tokenizer_run_terminates.
+
+Theorem C04_xml_tokenizer_end_terminates :
+  forall simd ent c1 sk fuel m,
+  InstTermX.XmlTI m -> (InstTermX.xml_fuel (InstTermX.xml_unread m) <= fuel)%nat -> (4 <= fuel)%nat ->
+  let r := tok_end [] fq_next fq_peek (@app N) (fun q => q) fq_run1 xml_flavour true xml_table simd ent c1 sk fuel m in
+  snd r <> SPanic 98 /\ snd r <> SPanic 97.
+Proof. exact InstTermX.xml_end_terminates. Qed.
+Print Assumptions C04_xml_tokenizer_end_terminates.
+
+Theorem C04_xml_driver_terminates :
+  forall simd ent c1 sk fuel inj chunks s0 last,
+  (InstTermX.xml_fuel (length (concat chunks) + length chunks * (50 * length inj)) <= fuel)%nat -> (4 <= fuel)%nat ->
+  let log := snd (drive_flat xml_flavour true xml_table simd ent c1 sk fuel inj chunks
+                             (mkmach (init_cfg s0 last false) [] [] 0%N) []) in
+  ~ In (SPanic 98) log /\ ~ In (SPanic 97) log.
+Proof. exact InstTermX.xml_drive_terminates. Qed.
+Print Assumptions C04_xml_driver_terminates.
+
+Theorem C04_xml_fuel_bound_and_fresh_tokenizer :
+  (forall T, InstTermX.xml_fuel T = ((T + 1) * (2 * T + 10))%nat) /\
+  (forall s0 last q o k, InstTermX.XmlTI (mkmach (init_cfg s0 last false) q o k) /\
+                         InstTermX.xml_unread (mkmach (init_cfg s0 last false) q o k) = length q).
+Proof.
+  exact (conj InstTermX.xml_fuel_eq
+              (fun s0 last q o k => conj (InstTermX.xml_TI_init s0 last q o k) (InstTermX.xml_unread_init s0 last q o k))).
+Qed.
+Print Assumptions C04_xml_fuel_bound_and_fresh_tokenizer.
+
+Theorem C04_xml_table_conditions :
+  (forall s, LineInv.start_ok xml_table InstTermX.xml_clean s = true) /\
+  (forall s, pchk InstTermX.xml_rank s false (t_step xml_table s) = true) /\
+  (forall s, eof_ok (t_eof xml_table s) = true) /\ (forall s, TermX.edepthx xml_table 4 s = true).
+Proof.
+  exact (conj InstTermX.xml_start_ok_all (conj InstTermX.xml_progress_all
+          (conj InstTermX.xml_eof_ok_all InstTermX.xml_eof_depth_all))).
+Qed.
+Print Assumptions C04_xml_table_conditions.
+
+Example C04_xml_termination_example :
+  snd (drive_flat xml_flavour true xml_table ([], [], []) (fun _ => None) (fun _ => None)
+                  {| sk_resp := []; sk_foreign := false |} (InstTermX.xml_fuel 22) [] InstTermX.xterm_input
+                  (mkmach (init_cfg XData None false) [] [] 0%N) []) = [SSuspend; SSuspend; SSuspend].
+Proof. exact InstTermX.xterm_ex. Qed.
+Print Assumptions C04_xml_termination_example.
